@@ -51,7 +51,7 @@ def _decode_family(tier, seed):
 @harness(props=["C01", "C03", "C05"], strength="P", family=_decode_family,
          functions=[MinMaxLengthType.decode_from_pdu, DecodeState.extract_atomic_value],
          covers=["terminated", "unterminated", "too-short"], assumes=["A-bitstruct", "A-codec"], crosscheck=False,
-         limits={"find_by_specification": True, "inductive_loops": True})
+         limits={"find_by_specification": True, "inductive_loops": True, "symbolic_raw_fields": True})
 def minmax_decode_contract(termination, width, bounded_above):
     """MIN-MAX-LENGTH-TYPE decoding, any PDU, any MIN/MAX-LENGTH, any cursor: DecodeError iff the PDU ends before
     MIN-LENGTH bytes; otherwise the value consists of the bytes up to the first correctly aligned termination sequence
@@ -136,7 +136,7 @@ def inv_encode_search(pos, raw_value, termination_sequence):
                               for b in (True, False)],
          functions=[MinMaxLengthType.encode_into_pdu, EncodeState.emplace_atomic_value, EncodeState.emplace_bytes],
          covers=["accepted", "rejected"], assumes=["A-bitstruct"], crosscheck=False,
-         limits={"find_by_specification": True, "inductive_loops": True})
+         limits={"find_by_specification": True, "inductive_loops": True, "symbolic_raw_fields": True})
 def minmax_encode_contract(termination, bounded_above):
     """MIN-MAX-LENGTH-TYPE encoding of a byte field of any length at any cursor: accepted iff the length is within
     MIN/MAX-LENGTH and the value does not contain its termination byte (END-OF-PDU: iff the object is the last one);
